@@ -12,8 +12,8 @@ EXTRACT = "coq/C05/Extract_C05.v"
 DRIVER = "props/C05/driver.ml"
 PROGS = {"c05sim": ["props/C05/unit.cpp"]}
 KB = 0.001987191
-NCOMP = {0: 1, 1: 3, 2: 3, 3: 4}
-NATOMS = {0: 1, 1: 2, 2: 2, 3: 4}
+NCOMP = {0: 1, 1: 3, 2: 3, 3: 4, 4: 6}      # 4: vector1d, a `cartesian` component of two atoms
+NATOMS = {0: 1, 1: 2, 2: 2, 3: 4, 4: 2}
 QREF = [(1.0, 0.0, 0.0), (0.0, 1.0, 0.0), (0.0, 0.0, 1.0), (-1.0, -1.0, -1.0)]
 
 
@@ -56,7 +56,7 @@ def gen_scn(r, k, forced=None):
     for d in range(nd):
         v = {"kind": 0}
         if not use_grids and r.random() < f.get("p_vector", 0.5):
-            v["kind"] = r.choice([1, 2, 3])
+            v["kind"] = r.choice([1, 2, 3, 4])
         v["w"] = r.choice([1.0, 0.5, 0.25, 2.0])
         v["nx"] = r.randint(3, 6) if nd == 3 else r.randint(4, 12)
         if f.get("big_grids"):
@@ -201,6 +201,14 @@ def gen_scn(r, k, forced=None):
                     z = []
                     for a in QREF:
                         z += [sg[k] * a[perm[k]] + r.randint(-2, 2) / 8.0 for k in range(3)]
+                zs.append(z)
+                continue
+            if v["kind"] == 4:
+                # positions of the two atoms: the six entries of the vector
+                if prev is not None and r.random() < 0.6:
+                    z = [p_ + r.randint(-4, 4) / 8.0 for p_ in prev[d]]
+                else:
+                    z = [r.randint(-16, 16) / 8.0 for _ in range(6)]
                 zs.append(z)
                 continue
             if v["kind"] != 0:
@@ -364,6 +372,8 @@ def config_text(c, geom=None, rebin=False, par=None):
             if v["periodic"]:
                 L += ["    period %r" % v["P"], "    wrapAround %r" % v["c"]]
             L += ["  }", "}"]
+        elif v["kind"] == 4:
+            L += ["  cartesian {", "    atoms { atomNumbers %d %d }" % (first[d], first[d] + 1), "  }", "}"]
         elif v["kind"] == 3:
             L += ["  orientation {", "    atoms { atomNumbers %d %d %d %d }" % tuple(first[d] + k for k in range(4)),
                   "    refPositions " + " ".join("(%r, %r, %r)" % a for a in QREF), "  }", "}"]
@@ -496,6 +506,9 @@ def scenario_text(c, dump=True):
         for d, z in enumerate(zs):
             if c["vars"][d]["kind"] == 0:
                 L.append("pos %d 0 0 %s" % (first[d], V.hexf(z)))
+            elif c["vars"][d]["kind"] == 4:
+                for k in range(2):
+                    L.append("pos %d %s %s %s" % (first[d] + k, V.hexf(z[3 * k]), V.hexf(z[3 * k + 1]), V.hexf(z[3 * k + 2])))
             elif c["vars"][d]["kind"] == 3:
                 for k in range(4):
                     L.append("pos %d %s %s %s" % (first[d] + k, V.hexf(z[3 * k]), V.hexf(z[3 * k + 1]), V.hexf(z[3 * k + 2])))
@@ -543,7 +556,7 @@ def model_case(c, xs, dump=True):
     """xs: the values of the variables at every step (list of lists of component lists)"""
     p = ["META", str(len(c["vars"]))]
     for v in c["vars"]:
-        p += [str(v["kind"]), "1" if v["periodic"] else "0", V.hexf(v.get("P", 1.0)), V.hexf(v["sigma"]), V.hexf(v["w"]),
+        p += [str(v["kind"] if v["kind"] < 4 else 100 + NCOMP[v["kind"]]), "1" if v["periodic"] else "0", V.hexf(v.get("P", 1.0)), V.hexf(v["sigma"]), V.hexf(v["w"]),
               "1" if v["gper"] else "0", "1" if v["expand"] else "0", "1" if v["hlo"] else "0", "1" if v["hup"] else "0",
               V.hexf(v["lower"]), V.hexf(v["upper"]), str(v["nx"])]
     p += [V.hexf(c["W"]), V.hexf(c["hw"]), str(c["freq"]), str(c["gfreq"]), "1" if c["use_grids"] else "0",
@@ -830,7 +843,7 @@ def clampdot(a, b):
 def dist2(v, x, ctr):
     if v["kind"] == 0:
         return pdiff(v, x[0], ctr[0]) ** 2
-    if v["kind"] == 1:
+    if v["kind"] in (1, 4):
         return sum((a - b) ** 2 for a, b in zip(x, ctr))
     if v["kind"] == 3:
         co = sum(a * b for a, b in zip(x, ctr))
@@ -844,7 +857,7 @@ def dgrad(v, x, ctr):
     """derivative of dist2 with respect to x (for a unit vector: the implemented tangential form, along the centre)"""
     if v["kind"] == 0:
         return [2 * pdiff(v, x[0], ctr[0])]
-    if v["kind"] == 1:
+    if v["kind"] in (1, 4):
         return [2 * (a - b) for a, b in zip(x, ctr)]
     if v["kind"] == 3:
         co = sum(a * b for a, b in zip(x, ctr))
@@ -1006,7 +1019,7 @@ def oracle(c, impl, traj):
         for v, z, xv in zip(c["vars"], zs, x):
             if v["kind"] == 0 and xv != [expected_scalar(v, z)]:
                 bad_hist = True
-            if v["kind"] == 1 and xv != z:
+            if v["kind"] in (1, 4) and xv != z:
                 bad_hist = True
         if bad_hist:
             return ("harness:history", "step %d: imposed (it=%d, z=%s) but the module saw (it=%d, x=%s)" % (n, it, zs, im["it"], x), n), facts
@@ -1276,6 +1289,8 @@ def witnesses():
                                         [[1.0, 0.125, 0.0, 0.0, 1.0, 0.0, 0.0, 0.0, 1.0, -1.0, -1.0, -1.0]],
                                         [[0.0, 1.0, 0.0, -1.0, 0.0, 0.0, 0.0, 0.0, 1.0, 1.0, -1.0, -1.0]],
                                         [[0.0, 1.0, 0.25, -1.0, 0.0, 0.0, 0.0, 0.0, 1.0, 1.0, -1.0, -1.0]]], use_grids=False, wt=True),
+        _cfg("w_vector1d", [_var(kind=4)], [[[1.0, 0.0, 0.5, 0.0, 0.25, 0.0]], [[1.0, 0.25, 0.5, 0.0, 0.25, 0.0]], [[0.5, 0.25, 0.5, 0.25, 0.25, 0.0]],
+                                            [[0.5, 0.5, 0.0, 0.5, 0.0, 0.25]]], use_grids=False, wt=True),
         _cfg("w_unit3", [_var(kind=2)], [[[1.0, 0.0, 0.5]], [[1.0, 0.25, 0.5]], [[0.5, 0.25, 0.5]], [[0.5, 0.5, 0.0]]], use_grids=False),
     ]
 
@@ -1346,6 +1361,7 @@ def check_one(run, c, impl, mo, txt, rcv, o, traj, mline):
     run.dist("vector_vars", sum(1 for v in c["vars"] if v["kind"] == 1))
     run.dist("unit_vector_vars", sum(1 for v in c["vars"] if v["kind"] == 2))
     run.dist("quaternion_vars", sum(1 for v in c["vars"] if v["kind"] == 3))
+    run.dist("vector1d_vars", sum(1 for v in c["vars"] if v["kind"] == 4))
     run.dist("steps", len(impl))
     run.dist("second_bias_steps", o.count("BIAS m2 "))
     run.dist("rejected_configs", o.count("CONFIG err=") - o.count("CONFIG err=ok"))
